@@ -235,7 +235,8 @@ def svgAttrMap (k : Str) : Option QualName :=
 def mathmlAttrMap (k : Str) : Option QualName :=
   if isName k "definitionurl" then some (plainName "definitionURL".toList) else none
 
-/-- `adjust_foreign_attributes`: (local name of the token, prefix, namespace, local) -/
+/-- `adjust_foreign_attributes`: (local name of the token, prefix, namespace, local); an empty prefix
+string is `qualname!`'s "no prefix" -/
 def foreignAttrTable : List (String × String × Str × String) := [
   ("xlink:actuate", "xlink", nsXlink, "actuate"),
   ("xlink:arcrole", "xlink", nsXlink, "arcrole"),
@@ -251,7 +252,7 @@ def foreignAttrTable : List (String × String × Str × String) := [
 
 def foreignAttrMap (k : Str) : Option QualName :=
   (foreignAttrTable.find? (fun r => r.1.toList == k)).map
-    (fun r => { pfx := some r.2.1.toList, ns := r.2.2.1, loc := r.2.2.2.toList })
+    (fun r => { pfx := if r.2.1 = "" then none else some r.2.1.toList, ns := r.2.2.1, loc := r.2.2.2.toList })
 
 /-- `adjust_attributes(tag, map)`: the map sees the *local* name only -/
 def adjustAttributes (map : Str → Option QualName) (tag : Tag) : Tag :=
